@@ -14,7 +14,8 @@ from props import _plumb
 
 def run(chk, tier, proof_ok):
     n = 40 if tier == 'quick' else 400
-    divs, errs = _plumb.correspondence(chk, n, dict(allow_saveload=True, allow_slow=True, max_ops=8))
+    divs, errs = _plumb.correspondence(chk, n, dict(allow_saveload=True, allow_slow=True, max_ops=10, allow_reset=True,
+                                                    allow_loadinto=True, window_choices=[2, 3, 4, 6]))
     full = tier == 'thorough' or not proof_ok or bool(divs) or bool(errs)
     findings, st = realsearch.schedule_findings(chk.seed * 13 + 5, full=full)
     chk.coverage['search'] = dict(st, oracle='closed-form schedule from the property statement; moved/not-moved per '
